@@ -1,65 +1,104 @@
 (* C18, RoundedRectangle part: confine_radii, zero radii = rectangle, contiguity.
    Statements only; proofs are in Proofs/Rrect.v. *)
-From EG Require Import Base.Prelude Model.Geometry Model.Rrect Proofs.Geometry Proofs.Rrect.
+From EG Require Import Base.Prelude Model.Geometry Model.Style Model.Rrect Proofs.Geometry Proofs.Curvefacts Proofs.Rrect Proofs.Rrect2.
 
-(* CornerRadii::confine (as repaired by 00acb94): the confined radii on each side sum to at most that side.
-   Unbounded-Z statement for all non-negative radii and sides; the code computes radius*side in u32, so model and
-   code coincide while radius * side < 2^32 (see ASSUMPTIONS of props/C18_rrect.py). *)
+(* Domain of the shape theorems: rr_dom r = rr_ok r /\ rr_arith_ok r = true (see C05_rrect.v / C08_rrect.v).
+
+   CornerRadii::confine (as repaired by 00acb94): the confined radii on each side sum to at most that side.
+   The first statement is about the unbounded-Z model, for all non-negative radii and sides.  The code computes radius * side
+   in u32: model and code coincide exactly when confine_arith_ok c bb = true (C18_rrect_confine_sound_machine states the
+   property under that hypothesis; C08_rrect_confine_arith_fits: radii and sides <= 65535 suffice). *)
 Theorem C18_rrect_confine_sound : forall c bb,
   radii_nonneg c -> sz_nonneg bb -> radii_fit (confine c bb) bb.
-Proof. exact confine_sound. Qed.
+Proof. intros; eapply confine_sound; eauto using rr_dom_ok, styled_dom_ok. Qed.
+
+Theorem C18_rrect_confine_sound_machine : forall c bb,
+  radii_nonneg c -> sz_nonneg bb -> confine_arith_ok c bb = true -> radii_fit (confine c bb) bb.
+Proof. intros c bb H1 H2 _. exact (confine_sound c bb H1 H2). Qed.
 
 Theorem C18_rrect_confine_keeps_fitting_radii : forall c bb, radii_fit c bb -> confine c bb = c.
-Proof. exact confine_fit_id. Qed.
+Proof. intros; eapply confine_fit_id; eauto using rr_dom_ok, styled_dom_ok. Qed.
 
 Theorem C18_rrect_confine_idempotent : forall c bb,
   radii_nonneg c -> sz_nonneg bb -> confine (confine c bb) bb = confine c bb.
-Proof. exact confine_idempotent. Qed.
+Proof. intros; eapply confine_idempotent; eauto using rr_dom_ok, styled_dom_ok. Qed.
 
-(* zero radii: the rounded rectangle is the rectangle (hit test and point enumeration) *)
+(* zero radii: the rounded rectangle is the rectangle (hit test and point enumeration); rect_ok is the whole domain here:
+   with zero radii confine multiplies nothing and every quadrant has radius 0 *)
 Theorem C18_rrect_zero_radii_eq_rect : forall rc p,
   rect_ok rc -> rr_contains (RR rc zero_radii) p = contains rc p.
-Proof. exact rr_zero_radii_contains. Qed.
+Proof. intros; eapply rr_zero_radii_contains; eauto using rr_dom_ok, styled_dom_ok. Qed.
 
 Theorem C18_rrect_zero_radii_points_eq_rect : forall rc,
   rect_ok rc -> rr_points (RR rc zero_radii) = points rc.
-Proof. exact rr_zero_radii_points. Qed.
+Proof. intros; eapply rr_zero_radii_points; eauto using rr_dom_ok, styled_dom_ok. Qed.
 
 (* every row of a rounded rectangle is one contiguous run *)
 Theorem C18_rrect_row_contiguous : forall r y x1 x2 x3,
-  rr_ok r -> x1 <= x2 <= x3 ->
+  rr_dom r -> x1 <= x2 <= x3 ->
   rr_contains r (P x1 y) = true -> rr_contains r (P x3 y) = true -> rr_contains r (P x2 y) = true.
-Proof. exact rr_row_contiguous. Qed.
+Proof. intros; eapply rr_row_contiguous; eauto using rr_dom_ok, styled_dom_ok. Qed.
 
 (* ... and every column *)
 Theorem C18_rrect_col_contiguous : forall r x y1 y2 y3,
-  rr_ok r -> y1 <= y2 <= y3 ->
+  rr_dom r -> y1 <= y2 <= y3 ->
   rr_contains r (P x y1) = true -> rr_contains r (P x y3) = true -> rr_contains r (P x y2) = true.
-Proof. exact rr_col_contiguous. Qed.
+Proof. intros; eapply rr_col_contiguous; eauto using rr_dom_ok, styled_dom_ok. Qed.
 
 (* even sides 2a x 2b, every radius (a, b): the rounded rectangle is the ellipse with the same bounding box.
    rr_ellipse_contains is the line-by-line model of Ellipse::contains (ellipse/mod.rs:109-130, 188-218, incl. the circle
-   threshold), tied to the real Ellipse by the correspondence suite rr_ellipse_pt. *)
+   threshold), tied to the real Ellipse by the correspondence suite rr_ellipse_pt and proved equal to Model/Ellipse.v's
+   ellipse_contains in C18_bridge.v (C18_rrect_half_eq_ellipse_model).  Sides <= 16383: the arithmetic range (C08_rrect). *)
 Theorem C18_rrect_half_eq_ellipse : forall t a b p,
-  point_ok t -> 0 <= 2 * a <= bound -> 0 <= 2 * b <= bound ->
+  point_ok t -> 0 <= 2 * a <= 16383 -> 0 <= 2 * b <= 16383 ->
   rr_contains (RR (R t (S (a * 2) (b * 2))) (radii_equal (S a b))) p =
   rr_ellipse_contains t (S (a * 2) (b * 2)) p.
-Proof. exact rr_half_eq_ellipse. Qed.
+Proof. intros; eapply rr_half_eq_ellipse; unfold bound; auto; lia. Qed.
 
 (* the corners are ellipse quadrants: contains() = inside the base rectangle and, for every corner box the point lies in,
    inside the ellipse of twice the (confined) corner radius whose quadrant fills that box.  With the half-pixel band of the
    ellipse test (ellipse part of C18) this is the band statement for rounded-rectangle corners. *)
 Theorem C18_rrect_corners_are_ellipse_quadrants : forall r p,
-  rr_ok r ->
+  rr_dom r ->
   rr_contains r p =
   contains (rr_rect r) p &&
   forallb (fun q => let e := corner_quadrant r q in negb (contains (eq_bbox e) p) || eq_contains e p) quadrants.
-Proof. exact rr_contains_quadrants. Qed.
+Proof. intros; eapply rr_contains_quadrants; eauto using rr_dom_ok, styled_dom_ok. Qed.
 
 Theorem C18_rrect_quadrant_is_ellipse : forall t rad q p,
   eq_contains (eq_new t rad q) p =
   rr_ellipse_contains (quadrant_ellipse_top_left t rad q) (S (sw rad * 2) (sh rad * 2)) p.
-Proof. exact eq_contains_is_ellipse. Qed.
+Proof. intros; eapply eq_contains_is_ellipse; eauto using rr_dom_ok, styled_dom_ok. Qed.
+
+(* half-pixel band of the corners.  e = the confined corner quadrant q, (a, b) its radius (>= 1), X / Y = squared doubled
+   offsets of the pixel centre from the centre of the corner's ellipse (the inner corner of the quadrant box,
+   C18_rrect_quadrant_center).  For a point of the corner box: accepted => inside the ideal ellipse with semi-axes a + 1/2,
+   b + 1/2; inside the ideal ellipse with semi-axes a - 1/2, b - 1/2 (and in no other corner box) => accepted.
+   ideal_in / ellipse_band: Proofs/Curvefacts.v (the ellipse part of C18). *)
+Theorem C18_rrect_corner_band : forall r q p,
+  rr_dom r ->
+  let e := corner_quadrant r q in
+  let a := sw (q_radius (conf r) q) in let b := sh (q_radius (conf r) q) in
+  1 <= a -> 1 <= b -> contains (eq_bbox e) p = true ->
+  (rr_contains r p = true -> ideal_in (2 * a + 1) (2 * b + 1) (qX e p) (qY e p)) /\
+  (contains (rr_rect r) p = true ->
+   (forall q', q' <> q -> contains (eq_bbox (corner_quadrant r q')) p = false) ->
+   ideal_in (2 * a - 1) (2 * b - 1) (qX e p) (qY e p) -> rr_contains r p = true).
+Proof. intros r q p H. exact (rr_corner_band r q p (rr_dom_ok r H)). Qed.
+
+(* the same band for a single EllipseQuadrant *)
+Theorem C18_rrect_quadrant_band : forall t rad q p,
+  1 <= sw rad -> 1 <= sh rad ->
+  let e := eq_new t rad q in
+  (eq_contains e p = true -> ideal_in (2 * sw rad + 1) (2 * sh rad + 1) (qX e p) (qY e p)) /\
+  (ideal_in (2 * sw rad - 1) (2 * sh rad - 1) (qX e p) (qY e p) -> eq_contains e p = true).
+Proof. exact eq_band. Qed.
+
+Theorem C18_rrect_quadrant_center : forall t rad q,
+  1 <= sw rad -> 1 <= sh rad ->
+  eq_center_2x (eq_new t rad q) =
+  P (2 * (if is_left q then px t + sw rad else px t) - 1) (2 * (if is_top q then py t + sh rad else py t) - 1).
+Proof. exact quadrant_center_ideal. Qed.
 
 (* non-vacuity: the input of the repaired defect h *)
 Example C18_rrect_nonvacuous :
